@@ -55,6 +55,8 @@ from ..codegen import (
     generate_subscript,
     generate_yield,
 )
+from ..config import get_section
+from ..exceptions import MissingConfiguration
 from ..plugins.base import Plugin
 
 
@@ -111,10 +113,8 @@ class ShorterResultsPlugin(Plugin):
         fragments_definitions: Dict[str, FragmentDefinitionNode],
     ) -> ast.Module:
         """Store a map of all fragment classes and their AST."""
-        fragments_module_name = (
-            self.config_dict.get("tool", {})
-            .get("ariadne-codegen", {})
-            .get("fragments_module_name", "fragments")
+        fragments_module_name = _get_section(self.config_dict).get(
+            "fragments_module_name", "fragments"
         )
 
         for fragment_class in [
@@ -315,6 +315,14 @@ class ShorterResultsPlugin(Plugin):
                 self.extended_imports[import_from] = set()
 
             self.extended_imports[import_from].add(single_field_class)
+
+
+def _get_section(config_dict: Dict) -> Dict:
+    """The codegen section, wherever the settings found it (also the legacy one)."""
+    try:
+        return get_section(config_dict)
+    except MissingConfiguration:
+        return {}
 
 
 def _get_yield_value_from_async_for(stmt: ast.stmt) -> Optional[ast.expr]:
